@@ -358,6 +358,7 @@ fn run_history(u: &[Entry], v: &Value) -> Value {
                 match std::fs::remove_dir(&p).and_then(|_| std::fs::rename(&bak, &p)) { Ok(_) => json!("ok"), Err(_) => json!("io") }
             }
             "reset" => { verif::registry_reset(); json!("ok") }
+            "cd" => match std::env::set_current_dir(s(step, "p").replace("$ROOT", &root)) { Ok(_) => json!("ok"), Err(_) => json!("io") },
             "snap" => { snaps.push(snapshot(Path::new(&root))); json!("ok") }
             other => panic!("unknown step {other}"),
         };
